@@ -643,6 +643,10 @@ pub fn configs(tier: &str, prop: &str) -> Vec<(Cfg, BfsCfg)> {
 }
 
 pub fn replay(prop: &str, doc: &serde_json::Value) -> i32 {
+  if doc["replay"]["family"] == "limits" {
+    println!("resource-limit family case {} : re-run ./check C01 --tier quick (the family is enumerated in full there)", doc["replay"]);
+    return 1;
+  }
   let label = doc["replay"]["config"].as_str().unwrap_or("");
   let hist: Vec<Ev> = serde_json::from_value(doc["replay"]["history"].clone()).expect("history");
   for (cfg, _) in configs("thorough", prop) {
@@ -669,6 +673,74 @@ pub fn replay(prop: &str, doc: &serde_json::Value) -> i32 {
   2
 }
 
+/// Resource-limit family: the topic cache's sample limit is shared by every local entity of the topic and
+/// "will only ever increase".  Enumerates (limit of the first QoS, QoS of a later create_topic / create_datareader
+/// on the same topic, when that happens, backlog size, cache cleaning): as long as the backlog stays within the
+/// largest limit ever set, nothing that was received may disappear before it is handed over.
+fn limits_family(rep: &mut Report) {
+  let mut cases: Vec<(Option<i32>, (i32, Option<i32>), usize, i64, bool)> = vec![];
+  for first in [None, Some(200)] {
+    for second in [(0, None), (-1, None), (1, None), (0, Some(10)), (0, Some(300))] {
+      for when in [0usize, 1, 2] {
+        for n in [10i64, 63, 64, 70, 100, 199] {
+          for clean in [false, true] {
+            cases.push((first, second, when, n, clean));
+          }
+        }
+      }
+    }
+  }
+  let res = crate::engine::par_map(cases.len(), 16, |i| {
+    let (first, second, when, n, clean) = cases[i];
+    let r = std::panic::catch_unwind(|| -> Option<String> {
+      let mut sim = SimReader::new(RCfg { reliable: true, history: 0, nwriters: 1, frag_size: 1024 });
+      if let Some(m) = first {
+        sim.topic_requalified(0, Some(m));
+      }
+      // the largest limit ever set (default 64 when a QoS names none; KeepLast(d) raises it to d at least)
+      let lim = |h: i32, m: Option<i32>| m.unwrap_or(64).max(if h > 0 { h } else { 0 }) as i64;
+      let largest = 64.max(first.map_or(0, i64::from)).max(if when < 2 { lim(second.0, second.1) } else { 0 });
+      if when == 0 {
+        sim.topic_requalified(second.0, second.1);
+      }
+      for sn in 1..=n {
+        if when == 1 && sn == n / 2 {
+          sim.topic_requalified(second.0, second.1);
+        }
+        let b = sim.data_bytes(0, sn, 1, 0, true);
+        sim.inject(&b);
+      }
+      if clean {
+        sim.cache_clean();
+      }
+      let taken: Vec<i64> = sim.take(usize::MAX).map(|v| v.iter().map(|t| t.sn).collect()).unwrap_or_default();
+      if n <= largest && taken != (1..=n).collect::<Vec<i64>>() {
+        return Some(format!("{n} samples arrived in order, the largest sample limit ever set for the topic is {largest}; the reader handed over {} of them, the first {:?}", taken.len(), taken.first()));
+      }
+      None
+    });
+    match r {
+      Ok(x) => x,
+      Err(_) => Some(format!("panic: {}", crate::engine::take_last_panic().unwrap_or_default())),
+    }
+  });
+  let mut n = 0u64;
+  for (i, r) in res.into_iter().enumerate() {
+    n += 1;
+    if let Some(msg) = r {
+      let (first, second, when, k, clean) = cases[i];
+      let when_name = ["before the samples", "half-way", "never"][when];
+      rep.violation(
+        "C01:limits:evicted-within-limit",
+        json!({"family": "limits", "first_max_samples": first, "second_qos_history_max_samples": [second.0, second.1.unwrap_or(-1)], "second_applied": when_name, "samples": k, "cache_clean": clean}),
+        &format!("first QoS max_samples {first:?}, then a local entity created on the topic with (history {}, max_samples {:?}) {}, cache clean {clean}: {msg}", second.0, second.1, ["before the samples", "half-way through them", "never"][when]),
+      );
+    }
+  }
+  rep.set("resource_limit_family_cases", json!(n));
+  rep.add_u64("traces_validated_against_impl", n);
+}
+
 pub fn run(prop: &str, tier: &str) -> i32 {
   let mut rep = Report::new(prop, tier, "model_checking");
   for (cfg, bcfg) in configs(tier, prop) {
@@ -683,6 +755,9 @@ pub fn run(prop: &str, tier: &str) -> i32 {
     }
     rep.absorb_bfs(&m.cfg.name.clone(), &m.describe(), &bcfg, st);
     rep.machinery_errors.extend(errs);
+  }
+  if prop == "C01" {
+    limits_family(&mut rep);
   }
   if tier == "thorough" {
     // merge-off cross-check (DESIGN.md 2.3)
